@@ -14,6 +14,7 @@ NET_BASE = """  <enum name="PacketFamily" type="byte">
     <value name="Connection">1</value>
     <value name="Account">2</value>
     <value name="Talk">3</value>
+    <value name="NPC">4</value>
     <value name="Error">255</value>
   </enum>
   <enum name="PacketAction" type="byte">
